@@ -1606,9 +1606,12 @@ namespace avel {
         vec2x64i arg_exponent = bit_shift_right<52>(vec2x64i{exponent_field});
 
         // Perform two multiplications such that they should never lead to lossy rounding
-        vec2x64i lower_bound0{vec2x64i{1} - arg_exponent};
+        // Both halves of the extracted magnitude must remain representable as normal powers of two
+        vec2x64i lower_bound0{max(vec2x64i{1} - arg_exponent, vec2x64i{-2044})};
         vec2x64i upper_bound0{vec2x64i{2046} - arg_exponent};
 
+        // Exponents beyond this range all produce the same result. Clamping keeps the subtraction below from overflowing
+        exp = clamp(exp, vec2x64i{-4096}, vec2x64i{+4096});
         vec2x64i extracted_magnitude = clamp(exp, lower_bound0, upper_bound0);
         exp -= extracted_magnitude;
 
